@@ -277,6 +277,33 @@ fn run_one<P: Prop>(case: &P::Case) -> Outcome {
     }
 }
 
+/// Runs one case in a child process (`--replay`) and maps its verdict back to an outcome.
+fn eval_in_child<P: Prop>(case: &P::Case, tier: Tier, seed: u64, file: &Path) -> Outcome {
+    write_json(file, case);
+    let child = Command::new(std::env::current_exe().expect("exe"))
+        .arg(P::ID)
+        .arg(tier.name())
+        .arg("--replay")
+        .arg(file)
+        .env("VERIF_SEED", seed.to_string())
+        .stdin(Stdio::null())
+        .stderr(Stdio::null())
+        .output();
+    let _ = std::fs::remove_file(file);
+    match child {
+        Ok(o) if o.status.code() == Some(1) => {
+            let text = String::from_utf8_lossy(&o.stdout);
+            let sig = text.lines().find_map(|l| l.trim().strip_prefix("signature: ")).unwrap_or("unknown").to_string();
+            let msg = text.lines().find_map(|l| l.trim().strip_prefix("detail: ")).unwrap_or("").to_string();
+            Outcome::failed(Failure::new(sig, msg))
+        }
+        Ok(o) if o.status.code() == Some(0) => Outcome::default(),
+        // killed by a signal / other exit code: for the memory-safety properties that is the failure itself
+        Ok(_) if P::signal_is_violation() => Outcome::failed(Failure::new("worker-killed-by-signal", "the case kills the process")),
+        _ => Outcome::default(),
+    }
+}
+
 fn replay_dir(id: &str) -> PathBuf {
     let d = verif_root().join("replays").join(id);
     let _ = std::fs::create_dir_all(&d);
@@ -398,7 +425,14 @@ fn worker<P: Prop>(tier: Tier, seed: u64, shard: usize, shards: usize, cases: u3
             if !stats.borrow().frozen {
                 write_json(&current, &case);
             }
-            let out = run_one::<P>(&case);
+            // After the first failure proptest shrinks. Candidates are then evaluated in a fresh process each: a
+            // failing simulation may leave process-global state behind that would make every later case fail.
+            let shrinking = stats.borrow().frozen;
+            let out = if shrinking {
+                eval_in_child::<P>(&case, tier, seed, &dir.join(format!("shrink-{shard}.json")))
+            } else {
+                run_one::<P>(&case)
+            };
             let mut st = stats.borrow_mut();
             record(&case, &out, &mut st);
             match out.fail {
@@ -422,10 +456,31 @@ fn worker<P: Prop>(tier: Tier, seed: u64, shard: usize, shards: usize, cases: u3
             Err(TestError::Fail(_, minimal)) => {
                 let path = dir.join(format!("{:016x}.json", fingerprint(&minimal)));
                 write_json(&path, &minimal);
-                // confirm outside proptest with a plain interpreter call
-                let out = run_one::<P>(&minimal);
+                // Confirm outside proptest. First in a fresh process (no state left behind by earlier cases of this
+                // worker: des keeps process-global simulation state), then, if that does not reproduce, in this one.
+                let child = Command::new(std::env::current_exe().expect("exe"))
+                    .arg(P::ID)
+                    .arg(tier.name())
+                    .arg("--replay")
+                    .arg(&path)
+                    .env("VERIF_SEED", seed.to_string())
+                    .stdin(Stdio::null())
+                    .stderr(Stdio::null())
+                    .output();
+                let mut confirmed: Option<Failure> = None;
+                if let Ok(o) = &child {
+                    let text = String::from_utf8_lossy(&o.stdout);
+                    if o.status.code() == Some(1) {
+                        let sig = text.lines().find_map(|l| l.trim().strip_prefix("signature: ")).unwrap_or("unknown").to_string();
+                        let msg = text.lines().find_map(|l| l.trim().strip_prefix("detail: ")).unwrap_or("").to_string();
+                        confirmed = Some(Failure::new(sig, msg));
+                    }
+                }
+                if confirmed.is_none() {
+                    confirmed = run_one::<P>(&minimal).fail.map(|f| Failure::new(f.sig, format!("{} (reproduces only after earlier cases of the same worker)", f.msg)));
+                }
                 let mut st = stats.borrow_mut();
-                match out.fail {
+                match confirmed {
                     Some(f) if !known.contains(&f.sig) => st.part.violations.push(Violation {
                         sig: f.sig,
                         msg: f.msg,
